@@ -62,6 +62,14 @@ impl WrappedWrite {
     pub async fn send<D: CfgVal>(self, maindevice: &MainDev, data: D) -> (r: Result<(), Error>)
         ensures r is Ok ==> cfg_sent(self.command, self.wkc, data.val())
     { unimplemented!() }
+    /// `send` with a ghost log threaded through (R24): register and value of every successful write, in order
+    #[verifier::external_body]
+    pub async fn send_logged<D: CfgVal>(self, log: &mut Ghost<Seq<(u16, int)>>, maindevice: &MainDev, data: D) -> (r: Result<(), Error>)
+        ensures
+            r is Ok ==> cfg_sent(self.command, self.wkc, data.val())
+                && exists|a: u16, g: u16| self.command == (Writes::Fpwr { address: a, register: g }) && final(log)@ == old(log)@.push((g, data.val())),
+            r is Err ==> final(log)@ == old(log)@,
+    { unimplemented!() }
 }
 impl Command {
 /*@fn file=src/command/mod.rs impl="impl Command" name=fpwr canary=0
@@ -155,11 +163,18 @@ impl<'a> SubDeviceRef<'a> {
 /*@fn file=src/subdevice/mod.rs impl="impl<'maindevice, S> SubDeviceRef<'maindevice, S>" name=write subst="impl Into<u16>=>RegisterAddress" props=C09
     ensures r.command == (Writes::Fpwr { address: self.configured_address, register: register as u16 }), r.wkc == Some(1u16)
 @*/
-/*@fn file=src/subdevice/mod.rs impl="impl<'maindevice, S> SubDeviceRef<'maindevice, S>" name=set_eeprom_mode props=C09,C12
+/*@fn file=src/subdevice/mod.rs impl="impl<'maindevice, S> SubDeviceRef<'maindevice, S>" name=set_eeprom_mode subst=".send(self.maindevice,=>.send_logged(&mut __wl, self.maindevice," props=C09,C12
     ensures
         // EEPROM ownership: first 2 ("owner = master, cancel PDI access") then the requested owner, both to register 0x0500 of THIS device
         r is Ok ==> cfg_sent(Writes::Fpwr { address: self.configured_address, register: 0x0500 }, Some(1u16), 2)
             && cfg_sent(Writes::Fpwr { address: self.configured_address, register: 0x0500 }, Some(1u16), mode.val()),
+@entry
+    let mut __wl: Ghost<Seq<(u16, int)>> = Ghost(Seq::empty());
+@before "Ok(())"
+    proof {
+        // ORDER: the cancel value FIRST, the requested owner LAST (what the register holds afterwards), nothing in between
+        assert(__wl@ =~= seq![(0x0500u16, 2int), (0x0500u16, mode.val())]);
+    }
 @*/
     /// `SubDeviceEeprom::new(DeviceEeprom::new(..))` and its identity() (units subdevice_eeprom / eeprom_device)
     #[verifier::external_body]
